@@ -121,10 +121,10 @@ where
         K: Hash + Eq + ?Sized,
         Token: Borrow<K>,
         requires obeys_key_model::<Token>(),
-        ensures match r {
+        ensures (match r {
             Some(id) => maps_borrowed_key_to_value(self.fwd(), token, id),
             None => !contains_borrowed_key(self.fwd(), token),
-        },
+        }),
     {
         self.vocab.get(token).copied()
     }
@@ -132,10 +132,10 @@ where
 
 //@unit src/tokenization.rs fn id_to_token impl=^impl<Token>Vocab<Token>where\sToken:PartialEq\+Eq\+Hash\+Clone,$
     fn id_to_token(&self, id: &u32) -> (r: Option<&Token>)
-        ensures match r {
+        ensures (match r {
             Some(t) => self.rev().contains_key(*id) && *t == self.rev()[*id],
             None => !self.rev().contains_key(*id),
-        },
+        }),
     {
         self.reverse_vocab.get(id)
     }
@@ -197,7 +197,7 @@ impl BPETokenizer {
 //@rule closure_annot(s ;; &String ;; Vec<u8>)
     fn id_to_token(&self, id: u32) -> (r: Option<Vec<u8>>)
         requires self.wf(),
-        ensures match r { Some(v) => self.vocab_at(id) == Some(v@), None => self.vocab_at(id).is_none() },
+        ensures (match r { Some(v) => self.vocab_at(id) == Some(v@), None => self.vocab_at(id).is_none() }),
     {
         if id < 256 {
             Some(vec![id as u8])
